@@ -6,6 +6,7 @@ file is then parsed and compared with what it held before plus the answers
 given before the fault, and the session is re-run to see what is asked again."""
 import configparser
 import os
+import sys
 import re
 import tempfile
 
@@ -331,7 +332,7 @@ def finalize(res, tier):
 
 
 # ------------------------------------------------------------------ real process, real terminal
-def pty_session(year, forms, path, answer_fn, fault=None, timeout=1200):
+def pty_session(year, forms, path, answer_fn, fault=None, timeout=300):
     """`python -m habutax solve ... --prompt-missing --writeback-input` as a child
     process on a pseudo-terminal.  fault = ('sigint'|'eof', k): at the k-th
     question a real Ctrl-C (the terminal raises SIGINT) or Ctrl-D (end of
@@ -347,6 +348,11 @@ def pty_session(year, forms, path, answer_fn, fault=None, timeout=1200):
     env = dict(os.environ, PYTHONPATH=REPO, PYTHONDONTWRITEBYTECODE='1', PYTHONWARNINGS='ignore')
     pid, fd = pty.fork()
     if pid == 0:
+        # a check started as a background job of a non-interactive shell inherits SIGINT/SIGQUIT *ignored*,
+        # and Python then never raises KeyboardInterrupt: give the child the disposition a terminal user has
+        import signal
+        signal.signal(signal.SIGINT, signal.SIG_DFL)
+        signal.signal(signal.SIGQUIT, signal.SIG_DFL)
         os.chdir('/tmp')
         os.execve(args[0], args, env)
     given = []
@@ -358,6 +364,8 @@ def pty_session(year, forms, path, answer_fn, fault=None, timeout=1200):
     try:
         while True:
             if time.time() - t0 > timeout:
+                if os.environ.get('HV_PTY_DEBUG'):
+                    sys.stderr.write(f'PTY-WATCHDOG fault={fault} n={n} fault_sent={len(fault_sent)} tail={buf.decode("utf-8", "replace")[-400:]!r}\n')
                 os.kill(pid, 9)
                 os.waitpid(pid, 0)
                 return None, given
@@ -378,7 +386,7 @@ def pty_session(year, forms, path, answer_fn, fault=None, timeout=1200):
                     break
                 # the key stroke can be swallowed while the child is (re)configuring the terminal:
                 # a user would simply press it again
-                if fault_sent and time.time() - fault_sent[0] > 3.0 and len(fault_sent) < 8:
+                if fault_sent and time.time() - fault_sent[0] > 10.0 and len(fault_sent) < 8:
                     os.write(fd, b'\x03' if fault[0] == 'sigint' else b'\x04')
                     fault_sent.insert(0, time.time())
                 continue
@@ -428,6 +436,7 @@ def run_pty_shard(spec, tier, seed):
         n = r0.n_prompts
         full = dict(given0)
         ks = sorted(set([1, 2, n] + [rng.randint(1, n) for _ in range(spec['nk'])]))
+        hung = 0
         for kind in ('sigint', 'eof'):
             for k in ks:
                 path = os.path.join(tmp, 'p.ini')
@@ -439,6 +448,9 @@ def run_pty_shard(spec, tier, seed):
                 rp = {'engine': 'pty-fault', 'shard': spec, 'fault': [kind, k]}
                 if status is None:
                     res.inconclusive.append(f'pty session {spec} {kind}@{k} hit the watchdog')
+                    hung = hung + 1
+                    if hung >= 2:
+                        return res      # do not spend the shard's whole budget on a terminal that does not react
                     continue
                 try:
                     after = parse(path)
